@@ -122,6 +122,26 @@ CHECKS = {
             'JiraIssue replaced in the harness process; real BranchCascade '
             'populated through its own methods',
             'DESIGN.md section 3, C11'),
+    'C12': ('exploration',
+            'runtime monitor on refs / PRs / comments around every job made '
+            'while a hold is in place, bounded-progress check after it is '
+            'lifted; F: real handle_pull_request on a stub job over a name '
+            'grammar',
+            'Each hold kind is added at each of 3 positions of a short '
+            'history on real repositories and attacked with 3-6 hostile '
+            'steps; after lifting it the PR must reach the queue / merge '
+            'within 5 cooperative rounds; 5 600 (source, destination, state) '
+            'cells at function level.',
+            W, 'DESIGN.md section 3, C12'),
+    'C15': ('exploration',
+            'runtime monitor around the evaluation that executes reset / '
+            'force_reset in generated rewrite histories; the harness knows '
+            'the manual commits it made and classifies them independently',
+            'Source rewrites, destination moves and manual commits (plain '
+            'and merge commits) in random order, then the command; refusal, '
+            'scope of deletions / declines and rebuild are checked on the '
+            'remote and the host.',
+            W, 'DESIGN.md section 3, C15'),
     'C13': ('exploration',
             'deterministic controlled scheduler (sys.monitoring LINE events) '
             'over the real put_job / process_task / job __eq__; offline '
@@ -171,7 +191,7 @@ CHECKS = {
 ALL = ['C%02d' % i for i in range(1, 21)]
 # checks validated on the unchanged tree (others stay under not_applicable)
 READY = ['C01', 'C02', 'C03', 'C04', 'C06', 'C07', 'C08', 'C10', 'C11',
-         'C14', 'C17', 'C18']
+         'C12', 'C14', 'C15', 'C17', 'C18']
 
 NOT_YET = 'monitor not built yet in this round (see DESIGN.md section 3); ' \
           'no claim is made'
